@@ -47,6 +47,14 @@ type tgtMism struct {
 	Z    bool
 	W    float64
 }
+type tgtTags struct {
+	Name string
+	P    int    `bcl:"pp"`
+	Q    int    `bcl:"qq"`
+	R    string `bcl:"rr"`
+	S    int    `bcl:"ss"`
+	U    bool   `bcl:"uu"`
+}
 type tgtTag struct {
 	Name  string
 	Alpha int `bcl:"a_b"`
@@ -123,6 +131,10 @@ func newTarget(kind string) any {
 		return &[]tgtMism{}
 	case "tag":
 		return &tgtTag{}
+	case "tags":
+		return &tgtTags{}
+	case "tags-slice":
+		return &[]tgtTags{}
 	}
 	return &UTarget{}
 }
@@ -153,6 +165,21 @@ func orderSource(r *prng.R, kind string) string {
 			for i := 0; i < n; i++ {
 				k := prng.Pick(r, keys)
 				fmt.Fprintf(&sb, "  %s = %d\n", k, r.Range(1, 99))
+			}
+			sb.WriteString("}\n")
+		case "tags":
+			bt = "tgt_tags"
+			fmt.Fprintf(&sb, "def %s \"b%d\" {\n", bt, b)
+			cands := []string{`pp = 1`, `qq = 2`, `rr = "r"`, `ss = 4`, `uu = true`, `pp = ""`, `qq = true`, `rr = 3`, `ss = nil`, `uu = 1.5`}
+			seen := map[string]bool{}
+			for i := r.Range(3, 5); i > 0; i-- {
+				c := prng.Pick(r, cands)
+				k := c[:2]
+				if seen[k] {
+					continue
+				}
+				seen[k] = true
+				fmt.Fprintf(&sb, "  %s\n", c)
 			}
 			sb.WriteString("}\n")
 		case "inner":
@@ -197,7 +224,7 @@ func (c16) Gen(seed uint64, idx int, tier string) *Scenario {
 	r := prng.New(seed, "C16", idx)
 	sc := &Scenario{Prop: "C16", Seed: seed, Idx: idx, API: "ParseFile", Name: "f.bcl"}
 	if r.Chance(1, 2) {
-		kind := prng.Pick(r, []string{"ab", "ab-slice", "inner", "inner-slice", "mism", "mism-slice", "tag"})
+		kind := prng.Pick(r, []string{"ab", "ab-slice", "inner", "inner-slice", "mism", "mism-slice", "tag", "tags", "tags-slice"})
 		sc.Class = "order:" + kind
 		sc.SetStr("target", kind)
 		sc.Src = []byte(orderSource(r, kind))
